@@ -17,8 +17,8 @@ import (
 	"time"
 
 	sdkmath "cosmossdk.io/math"
-	cmtproto "github.com/cometbft/cometbft/proto/tendermint/types"
 	"github.com/cometbft/cometbft/crypto/tmhash"
+	cmtproto "github.com/cometbft/cometbft/proto/tendermint/types"
 	"github.com/cosmos/cosmos-sdk/baseapp"
 	sdk "github.com/cosmos/cosmos-sdk/types"
 	authtypes "github.com/cosmos/cosmos-sdk/x/auth/types"
@@ -138,9 +138,9 @@ const (
 
 // Outcome of one delivered message.
 type Outcome struct {
-	Class string     // ok | rej | panic
-	Err   string     // codespace/code or panic text (annotation, not compared)
-	Resp  sdk.Msg    // typed response when ok (proto message)
+	Class string  // ok | rej | panic
+	Err   string  // codespace/code or panic text (annotation, not compared)
+	Resp  sdk.Msg // typed response when ok (proto message)
 	Raw   *sdk.Result
 }
 
